@@ -90,7 +90,7 @@ def run_stream(mod, st, rep, tier, seed, pool, extra_round=0):
     info = dict(name=st.name, evaluated=0, disagreements=0, cases=len(cases), exhaustive=st.exhaustive)
     if st.model and extra_round == 0:
         terms = [st.term(c, out) for c, (out, _) in zip(cases, res)]
-        r = common.run_cases_v(mod.ID, st.name, st.prelude, terms, shard=st.shard)
+        r = common.run_cases_v(mod.ID, st.name, st.prelude, terms, shard=st.shard, case_type=getattr(st, 'case_type', None))
         info.update(evaluated=r['evaluated'], disagreements=len(r['bad']), coq_files=r['files'])
         if r['errors']:
             info['errors'] = r['errors'][:3]
@@ -189,7 +189,7 @@ def replay(mod, path):
     rc = 1 if viol else 0
     if st.model:
         common.coq_build()
-        res = common.run_cases_v(mod.ID, 'replay', st.prelude, [st.term(r['case'], out)])
+        res = common.run_cases_v(mod.ID, 'replay', st.prelude, [st.term(r['case'], out)], case_type=getattr(st, 'case_type', None))
         print('model vs implementation:', 'agree' if not res['bad'] and not res['errors'] else 'DIFFER %s %s' % (res['bad'], res['errors'][:1]))
         if res['bad'] or res['errors']:
             rc = 1
